@@ -243,7 +243,11 @@ func (g *guardACP) CheckDocAccess(
 
 // boot builds a node on Badger in-memory with local document ACP (in memory), signing off, the policy and the schema.
 // With guard != nil the document ACP is wrapped by the livelock guard.
-func boot(relIdx bool, guard *guardACP) *hx.Node {
+func boot(relIdx bool, guard *guardACP) *hx.Node { return bootWith(relIdx, guard, false) }
+
+// bootWith: branchable declares both collections @branchable (collection-level commits link the
+// commits of every document of the collection).
+func bootWith(relIdx bool, guard *guardACP, branchable bool) *hx.Node {
 	ctx := context.Background()
 	// Badger in memory as node.NewStore builds it, with small arenas: a case boots 4-6 nodes of a few dozen keys
 	bopts := badgerds.DefaultOptions("")
@@ -285,19 +289,23 @@ func boot(relIdx bool, guard *guardACP) *hx.Node {
 	if relIdx {
 		idx = " @index"
 	}
+	br := ""
+	if branchable {
+		br = " @branchable"
+	}
 	sdl := fmt.Sprintf(`
-type Author @policy(id: "%s", resource: "users") {
+type Author @policy(id: "%s", resource: "users")%s {
 	k: Int
 	name: String
 	age: Int @index
 	books: [Book]
 }
-type Book @policy(id: "%s", resource: "users") {
+type Book @policy(id: "%s", resource: "users")%s {
 	k: Int
 	title: String
 	rating: Int
 	author: Author%s
-}`, res.PolicyID, res.PolicyID, idx)
+}`, res.PolicyID, br, res.PolicyID, br, idx)
 	if _, err := n.DB.AddSchema(n.Ctx, sdl); err != nil {
 		closeNode(n)
 		hx.Harnessf("schema rejected: %v", err)
